@@ -3,7 +3,10 @@ use super::job::*;
 use futures::task::{Context, Poll};
 use std::mem;
 
+#[cfg(not(desync_verif))]
 use std::sync::*;
+#[cfg(desync_verif)]
+use crate::verif::sync::*;
 
 ///
 /// The unsafe job does not manage the lifetime of its TFn
